@@ -443,7 +443,34 @@ def check_c17(tier, seed):
             "create/drop/re-create, inserts/deletes (also addressed to dropped or never-created graphs), rules, schemas, saves, compactions, clean restarts; "
             "oracle after every step and every restart: the set of graphs and every graph's facts/rules/schemas = model (so another graph's state is "
             "untouched, a dropped graph never reappears, a re-created graph is empty); non-trivial = history contains a drop, an insert and a restart")
-    return finish(acc, rule, ASSUME_COMMON + ["faults off; the schedule half (insert || drop || re-create) is the conc scenario"])
+    acc.extra["history_half"] = {"runs": acc.n}
+    # schedule half: insert || drop || re-create under seeded schedules, then (half of the runs) a crash
+    cacc = ConcAcc("C17", tier, seed, ["not_linearizable", "recovered_not_linearizable", "deadlock", "not_a_set", "reopen_failed_after_crash", "observe_failed",
+                                       "post:restart_differs_facts", "post:reopen_failed"], "exploration")
+    conc_batch(cacc, [("c17b", 700 if tier == "quick" else 30000)], seed, crash_share_num=1, crash_share_den=2,
+               interesting=("unlink", "rmdir", "kg-metadata", "shard-meta", "wal"))
+    cacc.conc_extra()
+    # merge the schedule half into the main accumulator
+    acc.n += cacc.n
+    acc.status.update(cacc.status)
+    acc.oracles.update(cacc.oracles)
+    acc.foreign.update(cacc.foreign)
+    acc.hist |= cacc.hist
+    acc.nontrivial |= cacc.nontrivial
+    acc.states |= cacc.states
+    acc.fs.update(cacc.fs)
+    acc.faults.update(cacc.faults)
+    acc.failing += cacc.failing
+    acc.harness += cacc.harness
+    acc.samples += cacc.samples[:2]
+    acc.extra.update(cacc.extra)
+    acc.violation_oracles |= cacc.violation_oracles
+    rule += ("; schedule half: a knowledge graph x (with a prefix-named sibling xy) is dropped / re-created while 1-2 other threads insert into it, delete from it and "
+             "read it, under seeded schedules, half of the runs additionally crash at a file-system event of the concurrent phase; oracle: exhaustive linearization search (a read "
+             "of a re-created graph never shows tuples inserted before the drop; other graphs untouched), recovered state after a crash explained by the acknowledged operations")
+    def mini(case, oracle):
+        return minimise_conc(case, oracle) if "threads" in case else vlib.minimise_dur(case, oracle)
+    return finish(acc, rule, CONC_ASSUME + ["history half runs fault-free"], minimiser=mini)
 
 
 # ------------------------------------------------------------------------------------- C14 (twin runs)
@@ -468,8 +495,11 @@ def c14_make_twin(base, rng):
         ops_b.append(copy.deepcopy(op))
     while rng.chance(1, 2):
         ops_b.append(copy.deepcopy(MAINT_OPS[rng.below(len(MAINT_OPS))]))
-    a["ops"] = base["ops"] + [{"op": "shutdown_restart"}]
-    b["ops"] = ops_b + [{"op": "shutdown_restart"}]
+    # immediate mode promises that a plain process exit + restart reproduces the state; batched and
+    # async modes promise it for a graceful shutdown (save_all) only
+    final = {"op": "restart"} if b["cfg"]["durability"] == "immediate" else {"op": "shutdown_restart"}
+    a["ops"] = base["ops"] + [dict(final)]
+    b["ops"] = ops_b + [dict(final)]
     return a, b, list(range(len(base["ops"]))), pos_b
 
 
@@ -541,11 +571,279 @@ def check_c14(tier, seed):
                   minimiser=lambda case, oracle: case)
 
 
+# ------------------------------------------------------------------------------------- schedule checks (conc)
+
+def conc_nontrivial(case, out):
+    writes = sum(1 for t in case.get("threads", []) for op in t if op["op"] in ("insert", "delete", "p_append", "drop_kg", "create_kg", "register_rule", "drop_rule"))
+    return writes >= 1 and len(case.get("threads", [])) >= 2 and out.get("sched_steps", 0) > 0
+
+
+class ConcAcc(Acc):
+    def __init__(self, *a, **k):
+        super().__init__(*a, **k)
+        self.schedules = set()
+        self.preempt = collections.Counter()
+        self.deadlocks = 0
+        self.lin = 0
+        self.strategies = collections.Counter()
+
+    def add_conc(self, case, out):
+        self.add(case, out, conc_nontrivial(case, out))
+        if out.get("status") in ("ok", "fail"):
+            self.schedules.add((out.get("site_hash"), tuple(out.get("sched_choices", []))))
+            self.preempt[min(out.get("preemptions", 0), 20)] += 1
+            self.lin += out.get("linearizations_tried", 0)
+            s = case.get("sched")
+            self.strategies[next(iter(s)) if isinstance(s, dict) else str(s)] += 1
+            if out.get("deadlock"):
+                self.deadlocks += 1
+
+    def conc_extra(self):
+        self.extra["distinct_schedules"] = len(self.schedules)
+        self.extra["preemptions_histogram"] = {str(k): v for k, v in sorted(self.preempt.items())}
+        self.extra["deadlocks"] = self.deadlocks
+        self.extra["linearization_orders_examined"] = self.lin
+        self.extra["schedule_strategies"] = dict(self.strategies)
+
+
+def conc_batch(acc, families, seed, crash_share_num=1, crash_share_den=2, interesting=("wal", "batch", "shard-meta", "unlink", "rename")):
+    """families: list of (family, n). Stage 1 runs every case without a crash (recording the
+    file-system event list under that exact schedule); stage 2 re-runs a share of them with a crash
+    at a sampled event of the concurrent phase."""
+    cases = []
+    for fam, n in families:
+        cases += gen(fam, seed, 0, n)
+    dry = []
+    for c in cases:
+        d = copy.deepcopy(c)
+        d["want_trace"] = True
+        dry.append(d)
+    t = time.time()
+    outs = execute(dry, timeout_s=120)
+    log(f"[{acc.prop}] {len(dry)} schedule runs in {time.time() - t:.1f}s")
+    determinism_spot_check(dry, outs, k=12)
+    crash_cases = []
+    for c, o in zip(cases, outs):
+        slim = {k: v for k, v in o.items() if k != "trace"}
+        acc.add_conc(c, slim)
+        if o.get("status") != "ok" or crash_share_num == 0:
+            continue
+        rng = PRng(c["seed"] ^ 0xDEAD)
+        if not rng.chance(crash_share_num, crash_share_den):
+            continue
+        base = None
+        tr = o.get("trace", [])
+        m = o.get("events", 0)
+        if m <= 0 or not tr:
+            continue
+        # ordinals in the trace are absolute; the crash plan is relative to the start of the concurrent phase
+        first = tr[-1][0] + 1 - m if tr else 0
+        conc_tr = [e for e in tr if e[0] >= first]
+        pts = crash_points(conc_tr, interesting)
+        for (ordn, cls, _w) in weighted_sample(rng, pts, 2):
+            cc = copy.deepcopy(c)
+            # same strategy + same sched_seed = same interleaving up to the crash point
+            cc["crash"] = {"at": ordn - first, "inflight_write": rng.chance(1, 2), "image": {"draw": rng.next()}, "second": None}
+            crash_cases.append(cc)
+    if crash_cases:
+        t = time.time()
+        couts = execute(crash_cases, timeout_s=120)
+        log(f"[{acc.prop}] {len(crash_cases)} schedule+crash runs in {time.time() - t:.1f}s")
+        for c, o in zip(crash_cases, couts):
+            acc.add_conc(c, o)
+
+
+def minimise_conc(case, oracle, budget_s=120):
+    """Shrink a failing concurrent case: drop operations per thread while the oracle keeps firing.
+    The schedule strategy is seeded, so a shrunk case is re-explored under the same strategy."""
+    t0 = time.time()
+    case = copy.deepcopy(case)
+    changed = True
+    while changed and time.time() - t0 < budget_s:
+        changed = False
+        cands = []
+        for ti, ops in enumerate(case["threads"]):
+            for oi in range(len(ops)):
+                c = copy.deepcopy(case)
+                del c["threads"][ti][oi]
+                if case.get("crash") is None or True:
+                    cands.append(c)
+        for si in range(len(case.get("setup", []))):
+            c = copy.deepcopy(case)
+            del c["setup"][si]
+            cands.append(c)
+        if not cands:
+            break
+        res = vlib._batch_fails(cands, oracle)
+        for c, ok in zip(cands, res):
+            if ok:
+                case = c
+                changed = True
+                break
+    case["threads"] = [t for t in case["threads"]]
+    return case
+
+
+CONC_ASSUME = ASSUME_COMMON + [
+    "sequentially consistent interleavings at lock / DashMap / file-system-call granularity; races between plain atomics and inside dependencies are not explored",
+    "parking_lot writer preference and DashMap sharding are not modelled (single-lock map shim)",
+    "histories are bounded: 2-3 threads x 1-4 operations, checked by exhaustive linearization search",
+]
+
+
+def check_c15(tier, seed):
+    oracles = ["not_linearizable", "recovered_not_linearizable", "deadlock", "not_a_set", "reopen_failed_after_crash", "observe_failed", "open_failed",
+               "acked_update_lost", "stale_update_resurfaced", "phantom_update", "reopened:acked_update_lost", "reopened:stale_update_resurfaced", "reopened:phantom_update",
+               "recovered:acked_update_lost", "recovered:stale_update_resurfaced", "recovered:phantom_update", "recovered2:acked_update_lost",
+               "recovered2:stale_update_resurfaced", "recovered2:phantom_update", "reopen_failed", "post:reopen_failed", "post:restart_differs_facts", "post:op_failed"]
+    acc = ConcAcc("C15", tier, seed, oracles, "exploration")
+    n = 900 if tier == "quick" else 40000
+    conc_batch(acc, [("c15p", n), ("c15e", n)], seed)
+    acc.conc_extra()
+    rule = ("level 1: 2-3 simulated threads x 1-3 operations {append (unique tuples, +1/-1), flush, compact} on 1-2 shards of the real FilePersist, buffer_size in {1,2,3,10000}; "
+            "level 2: 2-3 threads x 1-3 operations {insert/delete on overlapping tuples, multi-tuple batches, save_all, compact_all, read} on the real StorageEngine; "
+            "every run under a seeded schedule (random walk p in {5,20,50}%, PCT d=1-3, hold-one-thread-at-a-site, serial) over lock/DashMap/file-system switch points; "
+            "half of the clean runs are repeated under the recorded schedule with a crash at a sampled file-system event of the concurrent phase and a drawn crash image; "
+            "oracles: exhaustive linearization search against the set model (reports + final state), no acknowledged update lost or resurfacing after reopen / crash recovery, "
+            "no deadlock; non-trivial = >=2 threads, >=1 write, >=1 scheduling decision; distinct = distinct (case, schedule)")
+    return finish(acc, rule, CONC_ASSUME, minimiser=minimise_conc)
+
+
+def check_c19(tier, seed):
+    oracles = ["not_linearizable", "deadlock", "not_a_set", "observe_failed", "open_failed", "panic", "harness"]
+    acc = ConcAcc("C19", tier, seed, oracles, "exploration")
+    n = 1500 if tier == "quick" else 50000
+    conc_batch(acc, [("c19b", n)], seed, crash_share_num=0)
+    acc.conc_extra()
+    rule = ("incremental maintenance enabled (real IncrementalEngine worker thread + differential dataflow); one reader thread issuing consistent reads of the base relation "
+            "from the incremental engine while 1-2 writers insert/delete (overlapping tuples, duplicates, absent deletes, multi-tuple batches) through the StorageEngine; seeded "
+            "schedules as for C15; oracle: exhaustive linearization search - every consistent read equals the relation after some prefix between its invocation and return, no "
+            "'worker disconnected' error, final arrangement = final relation; non-trivial = >=2 threads, >=1 write, >=1 scheduling decision")
+    return finish(acc, rule, CONC_ASSUME + ["the incremental worker is a free-running real thread, only ever waited on synchronously (request/response)"], minimiser=minimise_conc)
+
+
+def check_c20(tier, seed):
+    oracles = ["not_linearizable", "deadlock", "not_a_set", "observe_failed", "open_failed"]
+    acc = ConcAcc("C20", tier, seed, oracles, "exploration")
+    n = 1800 if tier == "quick" else 60000
+    conc_batch(acc, [("c20", n)], seed, crash_share_num=0)
+    acc.conc_extra()
+    rule = ("1-2 writers issuing multi-tuple inserts (2-3 fresh tuples each), deletes, register/drop of a copy rule, and 1-2 readers reading the whole relation through the "
+            "snapshot path and through the full query pipeline with persistent rules; writers read their own relation after writing; seeded schedules as for C15; "
+            "oracle: exhaustive linearization search - every read equals the model after some prefix respecting real-time order (so a batch is visible entirely or not at all "
+            "and own acknowledged writes are visible), reports and final state explained; non-trivial = >=2 threads, >=1 write, >=1 scheduling decision")
+    return finish(acc, rule, CONC_ASSUME, minimiser=minimise_conc)
+
+
+# ------------------------------------------------------------------------------------- Handler-level scenarios (hsc)
+
+class HAcc(Acc):
+    def __init__(self, *a, **k):
+        super().__init__(*a, **k)
+        self.queries = 0
+        self.sessions = 0
+        self.reaped = 0
+        self.sim_seconds = 0
+        self.rejected = 0
+
+    def add_h(self, case, out, nontrivial):
+        self.add(case, out, nontrivial)
+        self.queries += out.get("queries_checked", 0)
+        self.sessions += out.get("sessions_created", 0)
+        self.reaped += out.get("sessions_reaped", 0)
+        self.sim_seconds += out.get("sim_seconds", 0)
+        self.rejected += out.get("rejected_inserts", 0)
+
+    def h_extra(self):
+        self.extra.update({"query_answers_checked_against_fresh_evaluation": self.queries, "sessions_created": self.sessions,
+                           "sessions_reaped_by_simulated_clock": self.reaped, "simulated_seconds": self.sim_seconds, "inserts_rejected_by_schema": self.rejected})
+
+
+def minimise_hsc(case, oracle, budget_s=150):
+    t0 = time.time()
+    case = copy.deepcopy(case)
+    case = vlib.ddmin_list(case, "ops", oracle, budget_s, t0)
+    return case
+
+
+def hop_kinds(case):
+    return collections.Counter(op.get("op") for op in case.get("ops", []))
+
+
+def check_c32(tier, seed):
+    oracles = ["report_mismatch", "persistent_facts_differ_from_model", "not_a_set", "stateless_query_differs_from_fresh_evaluation", "reopen_failed",
+               "observe_failed", "open_failed", "insert_rejected_without_schema", "persistent_rules_differ_from_model"]
+    acc = HAcc("C32", tier, seed, oracles, "exploration")
+    n = 1500 if tier == "quick" else 60000
+    cases = gen("c32", seed, 0, n)
+    outs = execute(cases, timeout_s=240)
+    determinism_spot_check(cases, outs, k=10)
+    kinds = collections.Counter()
+    for c, o in zip(cases, outs):
+        eff = collections.Counter((op.get("effect") or {}).get("e") for op in c["ops"] if op.get("op") == "program")
+        kinds.update(eff)
+        acc.add_h(c, o, sum(eff.values()) >= 2)
+    acc.h_extra()
+    acc.extra["statement_kinds"] = dict(kinds)
+    rule = ("seeded programs through the real Handler request path (QueryJob::execute; a quarter of the runs through the async execute_program on a current-thread runtime): "
+            "bulk inserts with in-batch and stored duplicates, single deletes incl. absent tuples, conditional deletes and updates with comparison conditions the model evaluates "
+            "natively (incl. updates whose inserted tuples collide with tuples they delete), flushes, compactions and clean restarts; oracle: every reported count (Inserted n / Deleted n / "
+            "Conditional delete: n / Update: d deleted) = set model, stored relations duplicate-free and equal to the model after every statement and restart; "
+            "non-trivial = at least two state-changing statements")
+    return finish(acc, rule, ASSUME_COMMON + ["faults off", "integer tuples of arity 2; conditions over one column"], minimiser=minimise_hsc)
+
+
+def check_c33(tier, seed):
+    oracles = ["schema_violation_accepted", "conforming_insert_rejected", "insert_rejected_without_schema", "persistent_facts_differ_from_model", "not_a_set",
+               "reopen_failed", "observe_failed", "open_failed", "stateless_query_differs_from_fresh_evaluation"]
+    acc = HAcc("C33", tier, seed, oracles, "exploration")
+    n = 1500 if tier == "quick" else 60000
+    cases = gen("c33", seed, 0, n)
+    outs = execute(cases, timeout_s=240)
+    determinism_spot_check(cases, outs, k=10)
+    for c, o in zip(cases, outs):
+        eff = collections.Counter((op.get("effect") or {}).get("e") for op in c["ops"] if op.get("op") == "program")
+        acc.add_h(c, o, eff.get("schema", 0) >= 1 and eff.get("insert", 0) >= 1)
+    acc.h_extra()
+    rule = ("seeded histories of persistent schema declarations (int/string/float/bool columns, re-declarations), request-local schema declarations by another client for the same "
+            "relation, conforming / one-bad-tuple / all-bad batches on the persistent path and the session-insert path, flushes and clean restarts (schema catalog reloaded); "
+            "oracle: a batch with a tuple that certainly violates the declared persistent schema stores nothing, a batch that certainly conforms is accepted, a relation without "
+            "a declared schema accepts every batch, stored contents = model after every step; non-trivial = history has a persistent schema and an insert")
+    return finish(acc, rule, ASSUME_COMMON + ["faults off", "conformance judged only in unambiguous cases (int vs string vs float vs bool, arity)"], minimiser=minimise_hsc)
+
+
+def check_c10(tier, seed):
+    oracles = ["session_query_differs_from_fresh_evaluation", "stateless_query_differs_from_fresh_evaluation", "request_local_query_differs_from_fresh_evaluation",
+               "persistent_facts_differ_from_model", "persistent_rules_differ_from_model", "session_report_mismatch", "not_a_set", "observe_failed", "open_failed",
+               "insert_rejected_without_schema", "conforming_insert_rejected"]
+    acc = HAcc("C10", tier, seed, oracles, "exploration")
+    n = 700 if tier == "quick" else 30000
+    cases = gen("c10", seed, 0, n)
+    outs = execute(cases, timeout_s=300)
+    determinism_spot_check(cases, outs, k=8)
+    for c, o in zip(cases, outs):
+        k = hop_kinds(c)
+        acc.add_h(c, o, k.get("sess_query", 0) >= 1 and (k.get("sess_insert", 0) + k.get("sess_add_rule", 0)) >= 1)
+    acc.h_extra()
+    rule = ("request-granularity interleavings through the real Handler + SessionManager: 2-3 WebSocket-style sessions (create, ephemeral insert/retract, session rules, .session clear, "
+            "persistent writes over the session, queries), a stateless client with request-local facts and rules, a persistent writer, the idle reaper on the simulated clock "
+            "(idle timeout 30 s / 120 s / 1 h, clock advanced by 10 s - 4000 s); every session owns a disjoint value range; oracle after every step: persistent facts/rules = model, "
+            "every answer = fresh evaluation on a pristine engine loaded with persistent data + the asking session's own facts and rules; "
+            "non-trivial = a session with ephemeral state issued a query")
+    return finish(acc, rule, ASSUME_COMMON + ["faults off", "fine-grained (lock-level) interleavings of session operations are explored by the conc half"], minimiser=minimise_hsc)
+
+
 CHECKS = {
+    "C10": check_c10,
     "C11": check_c11,
     "C12": check_c12,
     "C13": check_c13,
     "C14": check_c14,
+    "C15": check_c15,
+    "C19": check_c19,
+    "C20": check_c20,
+    "C32": check_c32,
+    "C33": check_c33,
     "C16": check_c16,
     "C17": check_c17,
 }
